@@ -3,9 +3,13 @@
 package faults
 
 import (
+	"context"
 	"errors"
 	"fmt"
 	"io"
+	"net"
+	"os"
+	"syscall"
 
 	"github.com/robfig/soy/ast"
 	"github.com/robfig/soy/data"
@@ -30,6 +34,7 @@ type Writer struct {
 	Partial   bool // the failing call accepts half of its bytes
 	FullCount bool // the failing call accepts all of its bytes and still returns an error
 	TypedNil  bool // the error returned is a typed-nil pointer (its Error method panics)
+	ErrKind   int  // which error value a failing call returns (index into WriteErrors; 0 = ErrInjected)
 	Capacity  int  // total bytes accepted before (n<len, err) for ever; -1 = unlimited
 	FailEmpty bool // zero-length writes fail too once the fault is active
 	// record
@@ -39,6 +44,20 @@ type Writer struct {
 	Failed                  int // number of calls that returned an error
 	FirstFailCall           int
 	AcceptedBeforeFirstFail int
+}
+
+// WriteErrors are the error values a failing writer may return: the harness's own, and the ones a
+// network connection, a pipe, a file or a cancelled request produce (some of them wrapped).
+var WriteErrors = []error{
+	ErrInjected, io.ErrClosedPipe, net.ErrClosed, syscall.EPIPE, syscall.ECONNRESET, io.ErrShortWrite, io.EOF, io.ErrUnexpectedEOF, context.Canceled, context.DeadlineExceeded, os.ErrDeadlineExceeded, os.ErrClosed,
+	&net.OpError{Op: "write", Net: "tcp", Err: os.NewSyscallError("write", syscall.EPIPE)}, &os.PathError{Op: "write", Path: "/dev/stdout", Err: syscall.ENOSPC}, fmt.Errorf("flush: %w", io.ErrClosedPipe),
+}
+
+func (w *Writer) err() error {
+	if w.ErrKind > 0 && w.ErrKind < len(WriteErrors) {
+		return WriteErrors[w.ErrKind]
+	}
+	return ErrInjected
 }
 
 // NewWriter returns a writer without faults.
@@ -69,7 +88,7 @@ func (w *Writer) Write(p []byte) (int, error) {
 			var e *NetErr
 			return n, e
 		}
-		return n, ErrInjected
+		return n, w.err()
 	}
 	if w.Capacity >= 0 {
 		room := w.Capacity - len(w.Accepted)
@@ -79,7 +98,7 @@ func (w *Writer) Write(p []byte) (int, error) {
 			}
 			w.Accepted = append(w.Accepted, p[:room]...)
 			w.fail()
-			return room, ErrInjected
+			return room, w.err()
 		}
 	}
 	w.Accepted = append(w.Accepted, p...)
